@@ -242,7 +242,7 @@ def G1_config_flow(ctx):
         # a function of config.rs that returns a GrevmConfig is a constructor/builder: copying a knob into the same knob of
         # the new value (struct update syntax, field by field) is not a use of it
         builders = {x for x in readers if facts.by[x].get('file', '').endswith('config.rs') and facts.by[x]['locals'] and facts.by[x]['locals'][0]['ty'].endswith('GrevmConfig')}
-        rd = {re.sub(r'::\{closure#\d+\}', '', x).split('::')[-1] for x in readers - builders} | ({'from_env'} & {x.split('::')[-1] for x in builders})
+        rd = set().union(*[facts.owners(x) for x in readers - builders] or [set()]) | ({'from_env'} & {x.split('::')[-1] for x in builders})
         rd -= {'clone', 'eq', 'ne', 'fmt', 'hash'}
         ctx.ob('G1', 'config::' + fld, 'who-reads', rd <= allowed and len(rd) >= 2, f'readers {sorted(rd)}; allowed {sorted(allowed)}',
                what='scheduling knobs may influence only how work is scheduled (spawn count, path selection); a new reader is a new way for configuration to reach results')
